@@ -1,8 +1,8 @@
 From Coq Require Import ZArith List Bool Extraction ExtrOcamlBasic.
-From TP Require Import Model.StCore Model.StTyping Model.StRef.
+From TP Require Import Model.StCore Model.StTyping Model.StRef Model.StCalls.
 Extraction Language OCaml.
 (* which variant the code is (decided by correspondence) *)
 Definition code_opts : opts :=
   {| o_neg_checked := true; o_for_checked := true; o_coerce_write := false; o_case_unsigned := true; o_return_ok := true |}.
 Definition run_cycle (fuel : nat) (s : store) (body : list stmt) : res store := run_program code_opts fuel s body.
-Extraction "../.cache/ml/c01_model.ml" run_cycle run_ref tprogram store_ok upd Z.add Z.mul Z.opp Z.div_eucl.
+Extraction "../.cache/ml/c01_model.ml" run_cycle run_ref tprogram store_ok upd inline_call fb_size Z.add Z.mul Z.opp Z.div_eucl.
